@@ -55,6 +55,12 @@ pub struct Profile {
     /// spaces with an SO3 component: probability that the goal target is a rotation close to
     /// the start given by the opposite-sign quaternion, with a step below their separation
     pub p_so3_signflip: f64,
+    /// probability that the caller re-tunes the planner's public parameter fields between two
+    /// calls (an `Op::SetParams` before one of the later calls)
+    pub p_retune: f64,
+    /// with histories: probability that problem 2 lives in its own, tighter space object
+    /// (`PlanCase::space2`); `set_problem_definition` is then replaced by `setup`
+    pub p_space2: f64,
 }
 impl Default for Profile {
     fn default() -> Self {
@@ -79,6 +85,8 @@ impl Default for Profile {
             p_so3_signflip: 0.0,
             p_zero_weight: 0.07,
             p_odd_start: 0.06,
+            p_retune: 0.0,
+            p_space2: 0.0,
         }
     }
 }
@@ -218,6 +226,72 @@ fn gen_obstacle(
             r: thickness / 2.0,
         },
     }
+}
+
+/// Inserts one `SetParams` (new in-range values, 0.01-100 x the old step / radius) before one of the
+/// calls after the first setup.
+pub fn insert_retune(ch: &mut Ch, ops: &mut Vec<Op>, step: f64, goal_bias: f64, radius: f64) {
+    if ops.len() < 2 {
+        return;
+    }
+    let at = 1 + ch.below(ops.len() - 1);
+    let f = |ch: &mut Ch, v: f64| {
+        match ch.weighted(&[2.0, 5.0, 2.0, 1.0]) {
+            0 => v,
+            1 => v * ch.log_range(0.2, 4.0),
+            2 => v * ch.log_range(4.0, 100.0),
+            _ => v * ch.log_range(0.01, 0.2),
+        }
+    };
+    let nb = match ch.weighted(&[2.0, 1.0, 1.0, 3.0]) {
+        0 => goal_bias,
+        1 => 0.0,
+        2 => 1.0,
+        _ => ch.range(0.02, 0.6),
+    };
+    let op = Op::SetParams {
+        step: f(ch, step),
+        goal_bias: nb,
+        radius: f(ch, radius),
+    };
+    ops.insert(at, op);
+}
+
+/// The same space with every bounded component's bounds tightened (a sub-box, a sub-interval, a
+/// narrower cone about the same centre); kind, layout, weights and fractions unchanged.
+pub fn tighten_space(ch: &mut Ch, cfg: &SpaceCfg) -> SpaceCfg {
+    let mut out = cfg.clone();
+    for c in out.comps.iter_mut() {
+        match c {
+            Comp::RV { bounds: Some(b), .. } => {
+                for (lo, hi) in b.iter_mut() {
+                    let w = *hi - *lo;
+                    let (a, z) = (ch.range(0.0, 0.35), ch.range(0.0, 0.35));
+                    let (nlo, nhi) = (*lo + a * w, *hi - z * w);
+                    if nlo < nhi {
+                        *lo = nlo;
+                        *hi = nhi;
+                    }
+                }
+            }
+            Comp::SO2 { bounds } => {
+                let (lo, hi) = bounds.unwrap_or((-std::f64::consts::PI, std::f64::consts::PI));
+                let (lo, hi) = (lo.max(-std::f64::consts::PI), hi.min(std::f64::consts::PI));
+                let w = hi - lo;
+                let (a, z) = (ch.range(0.05, 0.35), ch.range(0.05, 0.35));
+                if w > 0.0 {
+                    *bounds = Some((lo + a * w, hi - z * w));
+                }
+            }
+            Comp::SO3 { bounds } => {
+                let (centre, r) = bounds.unwrap_or(([0.0, 0.0, 0.0, 1.0], std::f64::consts::PI));
+                let nr = (r.min(std::f64::consts::PI) * ch.range(0.4, 0.9)).max(0.3);
+                *bounds = Some((centre, nr.min(r)));
+            }
+            _ => {}
+        }
+    }
+    out
 }
 
 pub fn default_budget(ch: &mut Ch, planner: PlannerTag, scale: f64) -> u64 {
@@ -410,9 +484,14 @@ pub fn gen_plan_case(ch: &mut Ch, prof: &Profile) -> PlanCase {
         no_start: false,
     }];
 
+    let mut space2: Option<SpaceCfg> = None;
+    if prof.histories && ch.prob(prof.p_space2) {
+        space2 = Some(tighten_space(ch, &space));
+    }
     if prof.histories {
-        let s2 = gen_state_in(ch, &space);
-        let g2 = gen_goal(ch, &space, extent, prof.rng_goal);
+        let sp2 = space2.as_ref().unwrap_or(&space);
+        let s2 = gen_state_in(ch, sp2);
+        let g2 = gen_goal(ch, sp2, extent, prof.rng_goal);
         world.obst.retain(|o| !o.hits(&space, &s2));
         problems.push(Problem {
             start: s2,
@@ -421,6 +500,18 @@ pub fn gen_plan_case(ch: &mut Ch, prof: &Profile) -> PlanCase {
             no_start: false,
         });
         ops = gen_history(ch, planner, prof.budget_scale);
+        if space2.is_some() {
+            // a problem in another space is installed by setup(), never by swapping the problem
+            // definition under a roadmap built elsewhere
+            for o in ops.iter_mut() {
+                if let Op::SetProblem(i) = o {
+                    *o = Op::Setup(*i);
+                }
+            }
+        }
+    }
+    if ch.prob(prof.p_retune) {
+        insert_retune(ch, &mut ops, step, goal_bias, radius);
     }
     // seeds: mostly arbitrary, sometimes the special values real callers use
     let seed = Some(match ch.weighted(&[8.0, 1.0, 0.5, 0.5]) {
@@ -490,6 +581,7 @@ pub fn gen_plan_case(ch: &mut Ch, prof: &Profile) -> PlanCase {
         empty_starts: false,
         query_cap: 400_000,
         world2,
+        space2,
     }
 }
 
